@@ -42,7 +42,7 @@ FLOORS = {
     'jv:depth>=2': (0.2, 'jv:case'), 'jv:string-escape': (0.2, 'jv:case'), 'jv:non-integer-number': (0.2, 'jv:case'),
     'jv:lookalike-string': (0.3, 'jv:case'), 'jv:lookalike-key-group': (0.1, 'jv:case'), 'jt:lookalike-string': (0.2, 'jt:case'),
     'jt:escape-sequence': (0.3, 'jt:case'), 'jt:invisible-astral': (0.08, 'jt:case'), 'jt:invisible-bmp': (0.1, 'jt:case'),
-    'jv:invisible-astral': (0.08, 'jv:case'), 'jt:number-frac-or-exp': (0.2, 'jt:case'),
+    'jv:invisible-astral': (0.08, 'jv:case'), 'jv:integer-beyond-2^53-inexact-as-double': (0.05, 'jv:case'), 'jt:number-frac-or-exp': (0.2, 'jt:case'),
     'xml:namespace': (0.2, 'xml:case'), 'xml:non-element-child': (0.3, 'xml:case'), 'xml:special-char': (0.3, 'xml:case'),
     'xml:inner-target-with-tail': (0.04, 'xml:case'), 'xml:doc-misc': (0.15, 'xml:case'), 'xml:doc-misc-before-and-after': (0.08, 'xml:case'), 'xh:inner-tail-then-ancestor': (0.3, 'xh:case'), 'jo:name-recurs-across-objects': (0.6, 'jo:case'), 'xh:per-item-expression-n>=2': (0.4, 'xh:case'), 'xh:ns-map-step': (0.6, 'xh:case'),
     'xh:ns-map-uri-after-another-namespace(et)': (0.05, 'xh:case'),
@@ -314,7 +314,10 @@ _any_string = st.lists(st.one_of(st.sampled_from(_XML_CHARS), st.sampled_from(_X
 # --------------------------------------------------------------------------
 # (1) JSON-representable XDM values
 # --------------------------------------------------------------------------
-_INTS = [0, 1, -1, 7, -42, 100, 2 ** 31, -2 ** 31, 2 ** 53, 2 ** 53 + 1, 2 ** 63, 10 ** 20, -10 ** 21, 10 ** 25, 123456789]
+# integers beyond 2**53 that no double represents exactly
+_BIG_INTS = [2 ** 53 + 1, -(2 ** 53 + 1), 2 ** 63 - 1, 2 ** 63 + 1, -(2 ** 63) - 1, 2 ** 64 + 1, 10 ** 18 + 1, 1234567890123456789, 10 ** 30 + 7,
+             -36028797018963969, 9007199254740995, -(10 ** 25) - 3]
+_INTS = [0, 1, -1, 7, -42, 100, 2 ** 31, -2 ** 31, 2 ** 53, 2 ** 63, 10 ** 20, -10 ** 21, 10 ** 25, 123456789] + _BIG_INTS + _BIG_INTS
 _DECS = ['0', '0.0', '1.5', '-0.5', '3.14159', '1.005', '100.00', '0.001', '0.125', '-2.50', '12345678901234567890.5',
          '0.00000001', '99.99', '1.015', '-7.123456', '1000000', '0.1', '0.07', '2.675', '123.456789']
 _DBLS = [0.0, -0.0, 1.0, 1.5, 0.1, -2.5, 1e20, 1e21, 1e22, 1e-7, 1e-5, 5e-324, 1.7976931348623157e308, 1 / 3, 123456.789e3, 2.0 ** 53,
@@ -430,6 +433,25 @@ def _value_class(v):
     return 'plain'
 
 
+def _inexact_integer(v, pv):
+    """first (integer of the value, number in the parsed text) pair that is not numerically identical; None if all are"""
+    if v[0] == 'i':
+        ok = isinstance(pv, (int, Decimal)) and not isinstance(pv, bool) and Decimal(pv) == Decimal(v[1])
+        return None if ok else (v[1], pv)
+    if v[0] == 'a' and isinstance(pv, list):
+        for m, x in zip(v[1], pv):
+            r = _inexact_integer(m, x)
+            if r:
+                return r
+    if v[0] == 'm' and isinstance(pv, dict):
+        for k, m in v[1]:
+            if k in pv:
+                r = _inexact_integer(m, pv[k])
+                if r:
+                    return r
+    return None
+
+
 def _has_key_group(v):
     if v[0] == 'm':
         keys = {k for k, _m in v[1]}
@@ -463,6 +485,13 @@ def judge_json_value(case, rec: Recorder | None = None) -> list[Disc]:
             df = diff(ref, py_model(pv))
             if df:
                 discs.append(Disc(f'{pre}/independent-parser/{df[0]}', df[1], df[2], f'text={text[:200]!r}'))
+            else:
+                # xs:integer values are written exactly (Serialization 3.1: as by the cast to xs:string): the number in the
+                # text, read with unlimited precision, is the integer itself - also beyond 2**53
+                bad = _inexact_integer(v, json.loads(text, parse_float=Decimal))
+                if bad:
+                    discs.append(Disc(f'{pre}/independent-parser/integer-not-exact/' + ('beyond-2^53' if abs(bad[0]) > 2 ** 53 else 'small'),
+                                      bad[0], bad[1], f'text={text[:200]!r}'))
         back, d = _call(pre + '/parse-json', lambda code: _value_class(v), lambda: _ev('parse-json($t)', {'t': text}))
         if d:
             discs.append(d)
@@ -481,7 +510,8 @@ def judge_json_value(case, rec: Recorder | None = None) -> list[Disc]:
                   (['jv:astral'] if any(x[0] == 's' and any(ord(c) > 0xFFFF for c in x[1]) for x in leaves) else []) + \
                   (['jv:invisible-astral'] if any(x[0] == 's' and any(c in x[1] for c in _INVISIBLE_ASTRAL) for x in leaves) else []) + \
                   (['jv:lookalike-string'] if any(x[0] == 's' and _has_lookalike(x[1]) for x in leaves) else []) + \
-                  (['jv:lookalike-key-group'] if _has_key_group(v) else [])
+                  (['jv:lookalike-key-group'] if _has_key_group(v) else []) + \
+                  (['jv:integer-beyond-2^53-inexact-as-double'] if any(x[0] == 'i' and float(x[1]) != x[1] for x in leaves) else [])
         rec.case(['jv', v], nontrivial=dep >= 2 or esc or nonint, sample={'check': 'json_value', 'xpath': xv[:120], 'v': v},
                  classes=classes)
     return discs
